@@ -5,6 +5,9 @@ RULE = ("one Kani harness per operator cell with None in an operand position x e
 
 
 def check(run, only=None):
+    from .. import e3
+    e3.run_parts(run, ['dispatcher'], only=only, kinds=["If", "And", "Or", "Equals", "NotEquals", "Index"])
+    run.notes.append('E3 (MIR symbolic execution): None conditions of if / and / or are type errors; == / != with a None left operand; index into None (node_* obligations)')
     from . import c05
 
     def lazy_eq(run, arms):
@@ -28,6 +31,10 @@ def check(run, only=None):
 
 
 def replay(run, path):
+    import json as _json
+    if _json.load(open(path)).get("replay", {}).get("engine") == "e3":
+        from ..e3replay import replay_file as _rf
+        return _rf(run, path)
     from ..replay import replay_file
 
     def gen():
